@@ -161,10 +161,19 @@ def gen_case(rng, malformed=False, yaml_share=0.25, conflict=False, ctx_kind=Non
             ren['@cfg/' + path] = '@cfg/mp.json#' + pn
             mp['configs'][pn] = data
 
+        # one part may be marked `main_part`: the multi-part file is then usable without naming a part
+        main_pn = rng.choice(sorted(mp['configs'])) if rng.random() < 0.4 else None
+        if main_pn:
+            mp['configs'][main_pn]['main_part'] = True
+        if malformed and rng.random() < 0.15:
+            ren[rng.choice(sorted(ren))] = '@cfg/mp.json#' + rng.choice(['nope', ''])       # a part that does not exist / no part named
+
         def rw(u, inside):
             for old, new in ren.items():
                 if u.startswith(old):
                     rest = u[len(old):]
+                    if main_pn and new.endswith('#' + main_pn) and not inside and rng.random() < 0.7:
+                        return '@cfg/mp.json' + rest
                     return ('#' + new.split('#')[1] if inside and rng.random() < 0.7 else new) + rest
             return u
         for pn, data in mp['configs'].items():
